@@ -281,6 +281,9 @@ func cmdCheck(g *Gen, prop, tier, evid, replayDir, knownPath string, loadSecs fl
 		}
 	}
 	obs = append(obs, g.globalObligations(prop)...)
+	if g.recoverProps[prop] {
+		obs = append(obs, g.recoverObligations(prop)...)
+	}
 	for _, l := range g.lemmas {
 		if !hasProp(l.Clause.Props, prop) {
 			continue
